@@ -230,12 +230,22 @@ def canon(e):
         if name in LEN_CALLS and e[2]:
             return ('LEN', obj(e[2][0]))
         if name == 'std::cmp::min':
-            a, b = canon(e[2][0]), canon(e[2][1])
+            terms = []
+            for x in (canon(e[2][0]), canon(e[2][1])):
+                terms.extend(x[1:] if x[0] == 'MIN' else [x])
+            # min(.., u32::MAX) of a limit is the saturating narrowing, written try_from().unwrap_or(MAX) or
+            # min(limit, u32::MAX as usize) as u32 alike
+            terms = [('PLACE', t[1]) if t[0] == 'SAT32' else t for t in terms]
+            bounded = any(t[0] in ('LEN', 'SPARE') for t in terms)
+            rest = [t for t in terms if t != ('CONST', 0xFFFFFFFF)]
+            if len(rest) < len(terms) and not bounded and len(rest) == 1 and rest[0][0] == 'PLACE':
+                return ('SAT32', rest[0][1])
             # min(LEN, saturate_u32(limit)) == min(LEN, limit) because LEN <= u32::MAX (trait contract);
             # a *truncating* cast of the limit is not accepted here (it is R1's violation)
-            a = ('PLACE', a[1]) if a[0] == 'SAT32' else a
-            b = ('PLACE', b[1]) if b[0] == 'SAT32' else b
-            return ('MIN',) + tuple(sorted((a, b), key=repr))
+            if bounded:
+                terms = rest
+            terms = sorted(set(terms), key=repr)
+            return ('MIN',) + tuple(terms) if len(terms) > 1 else terms[0]
         if name == 'io::traits::BufMut::spare_capacity' or name == 'io::traits::BufMutSlice::total_spare_capacity':
             return ('SPARE', obj(e[2][0]))
         if name == 'io::traits::BufSlice::total_len':
